@@ -58,6 +58,47 @@ Proof.
     + split; [|reflexivity]. intros _ H0. apply cfg_find_None in E0. contradiction.
 Qed.
 
+(* ---- NewConfigFromStrings followed by Get *)
+Lemma str_eqb_eq : forall a b, str_eqb a b = true <-> a = b.
+Proof.
+  induction a as [|x a IH]; intros [|y b]; simpl; split; try congruence; try reflexivity.
+  - intros H. apply andb_true_iff in H as [H1 H2]. apply N.eqb_eq in H1. apply IH in H2. congruence.
+  - intros H. inversion H; subst. rewrite N.eqb_refl. apply IH. reflexivity.
+Qed.
+
+Lemma str_eqb_refl : forall a, str_eqb a a = true.
+Proof. intros a. apply str_eqb_eq. reflexivity. Qed.
+
+Lemma sconfig_find_set : forall c k' l k,
+  sconfig_find (sconfig_set c k' l) k = if str_eqb k' k then Some l else sconfig_find c k.
+Proof.
+  induction c as [|[k0 l0] c IH]; intros k' l k; cbn [sconfig_set sconfig_find]; [reflexivity|].
+  destruct (str_eqb k0 k') eqn:E0; cbn [sconfig_find].
+  - apply str_eqb_eq in E0. subst k0. destruct (str_eqb k' k); reflexivity.
+  - rewrite IH. destruct (str_eqb k0 k) eqn:E1; [|reflexivity].
+    apply str_eqb_eq in E1. subst k0. destruct (str_eqb k' k) eqn:E2; [|reflexivity].
+    apply str_eqb_eq in E2. subst k'. rewrite str_eqb_refl in E0. discriminate.
+Qed.
+
+Lemma config_parse_find : forall specs c k,
+  sconfig_find (fold_left (fun c s => match spec_entry s with Some (k, l) => sconfig_set c k l | None => c end) specs c) k =
+  fold_left (fun r s => match spec_entry s with
+                        | Some (k', l) => if str_eqb k' k then Some l else r
+                        | None => r
+                        end) specs (sconfig_find c k).
+Proof.
+  induction specs as [|s specs IH]; intros c k; cbn [fold_left]; [reflexivity|].
+  rewrite IH. destruct (spec_entry s) as [[k' l]|]; [|reflexivity].
+  rewrite sconfig_find_set. reflexivity.
+Qed.
+
+Lemma config_parse_correct_lemma : forall specs k,
+  sconfig_get (config_parse specs) k = config_parse_get_spec specs k.
+Proof.
+  intros specs k. unfold sconfig_get, config_parse_get_spec, config_parse, last_for.
+  rewrite !config_parse_find. reflexivity.
+Qed.
+
 (* ---- composition of allowed differences *)
 Section Compose.
   Variable V : Type.
